@@ -17,11 +17,15 @@ import (
 )
 
 func init() {
-	register("C02", "model_checking", func(r *ev.Run) { inCampaign(r, "C02") })
+	register("C02", "model_checking", func(r *ev.Run) {
+		inCampaign(r, "C02")
+		liveInputLeg(r)
+	})
 	register("C11", "model_checking", func(r *ev.Run) {
 		inCampaign(r, "C11")
 		outCampaign(r, "C11")
 		ctlCampaign(r, "C11")
+		logFileLeg(r)
 	})
 }
 
